@@ -667,7 +667,12 @@ def gen_ops(rng, cfg, seed_tag):
             ops.append({"op": "resample", "src": src, "h": hh, "target": target})
             arrays.append((hh, None))
         else:
-            w = rng.choice([w for w in [4, 8, 16, 32, 64, 100, 256] if w <= max_window] or [4])
+            if rng.random() < 0.5:
+                # any whole number of samples, not only the round ones
+                w = rng.randint(3, max(3, min(max_window, 400)))
+            else:
+                w = rng.choice([w for w in [4, 8, 16, 32, 64, 100, 256, 37, 101, 113, 211]
+                                if w <= max_window] or [4])
             whole = rng.random() < 0.5
             window = w if whole else w + rng.choice([0.5, 0.25, 0.9, 0.001])
             hop = rng.choice([1, 2, w // 4 or 1, w // 2, w])
